@@ -83,16 +83,14 @@ inductive Pc
   | gR                           -- `return value()`; the caller reads the value
   | w0                           -- wait_slow: `fetch_add(1, acquire) + 1`
   | w1 (value : Nat)             -- `_futex.wait(value, nullptr)`
-  | wS                           -- asleep in the kernel
-  | wK                           -- woken, returning from futex_wait
+  | wS (e : Nat)                 -- inside futex_wait, asleep since wake epoch `e` (woken once `wakes > e`)
   | w2                           -- `value = _futex.value().load(acquire)`
   -- Future::wait_for(τ)
   | f0 (tau : Int)               -- `_futex.value().load(acquire)`
   | f1 (to0 : Nat)               -- wait_for_slow: `clock_gettime`, `until_ns = now + timeout_ns`
   | f2 (w : WF)                  -- `fetch_add(1, acquire) + 1`
   | f3 (w : WF) (to value : Nat) -- `_futex.wait(value, &spec)` with `spec = to`
-  | fS (w : WF)                  -- asleep with a timeout
-  | fK (w : WF)                  -- woken (by wake_all; the kernel may still report a timeout)
+  | fS (w : WF) (e : Nat)        -- inside the timed futex_wait, asleep since wake epoch `e`
   | f4 (w : WF)                  -- `value = _futex.value().load(acquire)`
   | f5 (w : WF) (value : Nat)    -- `clock_gettime`; `timeout_ns = until_ns - now_ns`; `<= 0` → false
   -- FutureContext::on_finish(callback id)   (`then` = on_finish of a wrapping callback)
@@ -110,6 +108,7 @@ structure State where
   storage : Option Nat
   count : Nat
   now : Nat
+  wakes : Nat                       -- number of `futex_wake(all)` calls executed (wake epoch)
   pc : Nat → Pc
   -- configuration
   latch : Bool
@@ -118,11 +117,16 @@ structure State where
   pending : List (Nat × Nat)        -- latch: (thread, d) of the `count_down` calls that have not executed their `fetch_sub`
   setCalled : Bool                  -- promise: `set_value` has been called (client contract: at most once)
   setVal : Option Nat               -- the argument of that call
+  firer : Option Nat                -- the thread that entered `Promise::set_value` (call, latch reaching zero, latch(0) constructor)
   setEntries : Nat                  -- activations of `FutureContext::set_value`
   constructs : Nat                  -- executions of the value constructor
   seals : Nat                       -- executions of `seal()`
   setDone : Bool                    -- `FutureContext::set_value` has returned
   adds : Nat                        -- `fetch_add`s performed on the futex word
+  xchgDone : Bool                   -- the setter has swapped READY into the futex word
+  addsAtXchg : Nat                  -- value of `adds` at that moment
+  regOwner : Nat → Option Nat       -- callback id ↦ thread that passed it to on_finish
+  det : List Nat                    -- the setter's detached list (the `det` of its program counter)
   regStarted : Nat → Bool           -- callback id has been passed to on_finish
   regDone : Nat → Bool              -- that on_finish call has returned
   runs : Nat → List (Option Nat)    -- what each invocation of callback `id` found in the value storage
@@ -138,11 +142,13 @@ structure State where
 def upd {α : Type} (f : Nat → α) (i : Nat) (v : α) : Nat → α := fun j => if j = i then v else f j
 
 def State.init (latchCount : Option Nat) : State :=
-  { head := some [], futex := 0, storage := none, count := latchCount.getD 0, now := 0,
+  { head := some [], futex := 0, storage := none, count := latchCount.getD 0, now := 0, wakes := 0,
     pc := fun t => if t = 0 ∧ latchCount = some 0 then .p0 latchValue else .idle,
     latch := latchCount.isSome, budget := latchCount.getD 0, pending := [],
     setCalled := false, setVal := if latchCount.isSome then some latchValue else none,
-    setEntries := 0, constructs := 0, seals := 0, setDone := false, adds := 0,
+    firer := if latchCount = some 0 then some 0 else none,
+    setEntries := 0, constructs := 0, seals := 0, setDone := false, adds := 0, xchgDone := false, addsAtXchg := 0,
+    regOwner := fun _ => none, det := [],
     regStarted := fun _ => false, regDone := fun _ => false, runs := fun _ => [], result := fun _ => none,
     sealRel := false, futexRel := false, hb := fun _ => false, nodeRel := fun _ => false, sealAcq := false,
     unsync := false }
@@ -151,6 +157,7 @@ def State.init (latchCount : Option Nat) : State :=
 structure Hint where
   spurious : Bool := false    -- a weak CAS whose comparison succeeds fails anyway
   timeout : Bool := false     -- futex_wait of a woken timed waiter reports ETIMEDOUT (return value is ignored by the code)
+  spuriousWake : Bool := false -- the kernel lets an untimed futex_wait return although nobody woke it
   woken : Nat := 0            -- number of sleepers futex_wake reports (ignored by the code)
   deriving Repr, Inhabited
 
@@ -166,15 +173,11 @@ def Res.words : Res → List String
   | .waited ok _ _ _ _ => ["ret", "waitfor", if ok then "1" else "0"]
   | .ready b => ["ret", "ready", if b then "1" else "0"]
 
-/-- futex_wake(all): every sleeper becomes runnable -/
-def wakePc : Pc → Pc
-  | .wS => .wK
-  | .fS w => .fK w
-  | p => p
-
-def isAsleep : Pc → Bool
-  | .wS => true
-  | .fS _ => true
+/-- the thread is inside futex_wait and no wake_all has happened since it fell asleep -/
+def asleepIn (s : State) (t : Nat) : Bool :=
+  match s.pc t with
+  | .wS e => decide (s.wakes ≤ e)
+  | .fS _ e => decide (s.wakes ≤ e)
   | _ => false
 
 /-- loop head `while (!(value & READY_MASK))` of wait_slow -/
@@ -187,7 +190,6 @@ def setRet (s : State) : Res := if s.latch then .down else .set
 def stepThread (addr : Nat → Nat) (s : State) (t : Nat) (h : Hint) : Option (State × Act) :=
   match s.pc t with
   | .idle => none
-  | .wS => none
   | .p0 v =>
     match s.head with
     | none =>      -- already ready: `assert(false)` in a debug build, nothing in a release build
@@ -199,26 +201,29 @@ def stepThread (addr : Nat → Nat) (s : State) (t : Nat) (h : Hint) : Option (S
     some ({ s with storage := some v, constructs := s.constructs + 1, hb := upd s.hb t true, pc := upd s.pc t .s1 },
           .ev ["construct", toString v])
   | .s1 =>
-    some ({ s with head := none, seals := s.seals + 1, sealRel := ordSeal.releases, sealAcq := ordSeal.acquires,
+    some ({ s with head := none, det := s.head.getD [], seals := s.seals + 1, sealRel := ordSeal.releases, sealAcq := ordSeal.acquires,
                    pc := upd s.pc t (.s2 (s.head.getD [])) },
           .xchg "head" 0 ordSeal (s.head.ptr.enc addr) sealedHead)
   | .s2 det =>
-    some ({ s with futex := readyMask, futexRel := ordFutexXchg.releases,
+    some ({ s with futex := readyMask, futexRel := ordFutexXchg.releases, xchgDone := true, addsAtXchg := s.adds,
                    pc := upd s.pc t (if s.futex > wakeIfWaitersAbove then .s3 det else .s4 det) },
           .xchg "futex" 0 ordFutexXchg s.futex readyMask)
   | .s3 det =>
-    some ({ s with pc := upd (fun u => wakePc (s.pc u)) t (.s4 det) }, .fwake "futex" 0 99 h.woken)
-  | .s4 (id :: rest) =>
-    some ({ s with runs := upd s.runs id (s.runs id ++ [s.storage]),
-                   unsync := s.unsync || !(s.hb t && s.nodeRel id && s.sealAcq),
-                   pc := upd s.pc t (.s4 rest) },
-          .ev ["cb", toString id, showOpt s.storage])
-  | .s4 [] =>
-    some ({ s with setDone := true, result := upd s.result t (some (setRet s)), pc := upd s.pc t .idle },
-          .ev (setRet s).words)
+    some ({ s with wakes := s.wakes + 1, pc := upd s.pc t (.s4 det) }, .fwake "futex" 0 99 h.woken)
+  | .s4 det =>
+    match det with
+    | id :: rest =>
+      some ({ s with runs := upd s.runs id (s.runs id ++ [s.storage]), det := rest,
+                     unsync := s.unsync || !(s.hb t && s.nodeRel id && s.sealAcq),
+                     pc := upd s.pc t (.s4 rest) },
+            .ev ["cb", toString id, showOpt s.storage])
+    | [] =>
+      some ({ s with setDone := true, result := upd s.result t (some (setRet s)), pc := upd s.pc t .idle },
+            .ev (setRet s).words)
   | .c0 d =>
     let new := u64 (s.count + 2 ^ 64 - d % 2 ^ 64)
     some ({ s with count := new, pending := s.pending.erase (t, d),
+                   firer := if new = latchFireAt then some t else s.firer,
                    pc := upd s.pc t (if new = latchFireAt then .p0 latchValue else .ret .down) },
           .rmw "sub" "count" 0 ordCountSub s.count d)
   | .g0 =>
@@ -236,10 +241,11 @@ def stepThread (addr : Nat → Nat) (s : State) (t : Nat) (h : Hint) : Option (S
           .rmw "add" "futex" 0 ordWaitAdd s.futex waitAddOperand)
   | .w1 value =>
     if s.futex = value then
-      some ({ s with pc := upd s.pc t .wS }, .fwait "futex" 0 value true)
+      some ({ s with pc := upd s.pc t (.wS s.wakes) }, .fwait "futex" 0 value true)
     else
       some ({ s with pc := upd s.pc t .w2 }, .fwait "futex" 0 value false)
-  | .wK => some ({ s with pc := upd s.pc t .w2 }, .fwoke "futex" 0 false)
+  | .wS e =>      -- blocked until a wake_all happens (or the kernel returns spuriously)
+    if e < s.wakes ∨ h.spuriousWake then some ({ s with pc := upd s.pc t .w2 }, .fwoke "futex" 0 false) else none
   | .w2 =>
     some ({ s with hb := upd s.hb t (s.hb t || (hasReady s.futex && s.futexRel && ordWaitLoad.acquires)),
                    pc := upd s.pc t (waitLoop s.futex) },
@@ -261,11 +267,11 @@ def stepThread (addr : Nat → Nat) (s : State) (t : Nat) (h : Hint) : Option (S
           .rmw "add" "futex" 0 ordWaitForAdd s.futex waitForAddOperand)
   | .f3 w _ value =>
     if s.futex = value then
-      some ({ s with pc := upd s.pc t (.fS w) }, .fwait "futex" 0 value true)
+      some ({ s with pc := upd s.pc t (.fS w s.wakes) }, .fwait "futex" 0 value true)
     else
       some ({ s with pc := upd s.pc t (.f4 w) }, .fwait "futex" 0 value false)
-  | .fS w => some ({ s with pc := upd s.pc t (.f4 w) }, .fwoke "futex" 0 true)
-  | .fK w => some ({ s with pc := upd s.pc t (.f4 w) }, .fwoke "futex" 0 h.timeout)
+  | .fS w e =>    -- woken: the kernel may still report a timeout; not woken: the timeout expires (any time: the code re-reads the clock)
+    some ({ s with pc := upd s.pc t (.f4 w) }, .fwoke "futex" 0 (if e < s.wakes then h.timeout else true))
   | .f4 w =>
     some ({ s with hb := upd s.hb t (s.hb t || (hasReady s.futex && s.futexRel && ordWaitForSlowLoad.acquires)),
                    pc := upd s.pc t (.f5 w s.futex) },
@@ -311,32 +317,32 @@ def stepThread (addr : Nat → Nat) (s : State) (t : Nat) (h : Hint) : Option (S
 
 /-! calls an idle thread may start -/
 def callSet (s : State) (t v : Nat) : State :=
-  { s with pc := upd s.pc t (.p0 v), setCalled := true, setVal := some v }
+  { s with pc := upd s.pc t (.p0 v), setCalled := true, setVal := some v, firer := some t }
 def callDown (s : State) (t d : Nat) : State :=
   { s with pc := upd s.pc t (.c0 d), budget := s.budget - d, pending := (t, d) :: s.pending }
 def callGet (s : State) (t : Nat) : State := { s with pc := upd s.pc t .g0 }
 def callWaitFor (s : State) (t : Nat) (tau : Int) : State := { s with pc := upd s.pc t (.f0 tau) }
 def callReg (s : State) (t id : Nat) : State :=
-  { s with pc := upd s.pc t (.r0 id), regStarted := upd s.regStarted id true }
+  { s with pc := upd s.pc t (.r0 id), regStarted := upd s.regStarted id true, regOwner := upd s.regOwner id (some t) }
 def callReady (s : State) (t : Nat) : State := { s with pc := upd s.pc t .q0 }
 
-/-- The transition relation: a thread performs its next action; the clock advances; the kernel
-wakes a sleeper spuriously; an idle thread starts a call the client contract allows
+/-- The transition relation: a thread performs its next action (spurious kernel wake-ups and spurious
+weak-CAS failures are `Hint` choices); the clock advances; an idle thread starts a call the client contract allows
 (`set_value` once per promise; `count_down` arguments ≥ 1 summing to at most the initial count;
 each callback object registered once). -/
 inductive Step : State → State → Prop
   | act (s : State) (addr : Nat → Nat) (t : Nat) (h : Hint) (s' : State) (l : Act) :
       stepThread addr s t h = some (s', l) → Step s s'
   | tick (s : State) (d : Nat) : Step s { s with now := s.now + d }
-  | spurious (s : State) (t : Nat) : isAsleep (s.pc t) = true → Step s { s with pc := upd s.pc t (wakePc (s.pc t)) }
   | set (s : State) (t v : Nat) : s.pc t = .idle → s.latch = false → s.setCalled = false → Step s (callSet s t v)
   | down (s : State) (t d : Nat) : s.pc t = .idle → s.latch = true → 1 ≤ d → d ≤ s.budget → Step s (callDown s t d)
   | get (s : State) (t : Nat) : s.pc t = .idle → Step s (callGet s t)
-  | waitFor (s : State) (t : Nat) (tau : Int) : s.pc t = .idle → Step s (callWaitFor s t tau)
+  | waitFor (s : State) (t : Nat) (tau : Int) : s.pc t = .idle → -2 ^ 63 ≤ tau → tau < 2 ^ 63 → Step s (callWaitFor s t tau)
   | reg (s : State) (t id : Nat) : s.pc t = .idle → s.regStarted id = false → Step s (callReg s t id)
   | ready (s : State) (t : Nat) : s.pc t = .idle → Step s (callReady s t)
 
-def Init (s : State) : Prop := ∃ n, s = State.init n
+/-- initial states: a fresh promise (`none`) or a latch constructed with count `n` (a `size_t`) -/
+def Init (s : State) : Prop := ∃ n : Option Nat, (∀ k, n = some k → k < 2 ^ 64) ∧ s = State.init n
 
 /-- skeletons this model was written against (compared with the generated ones in Properties/C08) -/
 def Skel.set_value : List Site := [
